@@ -1166,11 +1166,12 @@ class QasmOutput:
         name, registers, arguments.
         """
 
-        if not q_controls:
-            q_controls = []
-        q_regs = q_controls + q_targets
+        # controls and targets may be lists, tuples or numpy arrays
+        q_targets = list(q_targets)
+        q_regs = list(q_controls if q_controls is not None else [])
+        q_regs = q_regs + q_targets
 
-        if isinstance(q_targets[0], int):
+        if isinstance(q_targets[0], numbers.Integral):
             q_regs = ",".join(["q[{}]".format(reg) for reg in q_regs])
         else:
             q_regs = ",".join(q_regs)
